@@ -69,7 +69,9 @@ def _child(conn, args):
         conn.close()
 
 
-SILENCE_MIN = 240.0      # a worker is presumed stuck when it has been silent for max(SILENCE_MIN, 2.5 * cap + 30) seconds
+SILENCE_MIN = 240.0      # a worker is presumed stuck when it has been silent for SILENCE_MIN seconds outside a solver call, or
+                         # for 1.5 * cap + 30 seconds inside a solver call whose wall-clock cap is `cap` (the solver's own timer
+                         # should have ended that call at `cap`)
 
 
 def _task_limits(prop, tasks, tier):
@@ -98,7 +100,7 @@ def _run_tasks(ctx, nproc, jobs, limits, attempts=3):
             pr.start()
             b.close()
             running[job[1]] = (pr, a, time.time(), job, att)
-            beats[job[1]] = (time.time(), 120.0)
+            beats[job[1]] = (time.time(), 0.0)
         time.sleep(0.05)
         for key in list(running):
             pr, conn, t0, job, att = running[key]
@@ -119,9 +121,9 @@ def _run_tasks(ctx, nproc, jobs, limits, attempts=3):
                 out[key] = ([], {'wall_s': time.time() - t0, 'attempts': att},
                             ('crash', 'worker process ended without a result (exit code %s)' % pr.exitcode, ''))
                 done = True
-            lb, lcap = beats.get(key, (t0, 120.0))
+            lb, lcap = beats.get(key, (t0, 0.0))
             silent = time.time() - lb
-            stuck = silent > max(SILENCE_MIN, 2.5 * lcap + 30.0)
+            stuck = silent > (SILENCE_MIN if not lcap else max(60.0, 1.5 * lcap + 30.0))
             if not done and (stuck or time.time() - t0 > limits.get(key, 1000.0)):
                 pr.kill()
                 pr.join(5)
